@@ -135,6 +135,9 @@ class ModuleInfo:
         self.index, self.name, self.path = index, name, path
         self.source = open(path, encoding="utf-8").read()
         self.tree = ast.parse(self.source, filename=path)
+        for node in ast.walk(self.tree):         # parent links (used to see where a generator expression is consumed)
+            for child in ast.iter_child_nodes(node):
+                child._parent = node
         self.classes, self.functions, self.imports, self.assigns = {}, {}, {}, {}
         self._scan(self.tree.body)
 
